@@ -6,6 +6,7 @@ import (
 	"time"
 
 	"github.com/KevoDB/kevo/pkg/stats"
+	"github.com/KevoDB/kevo/pkg/verifhook"
 )
 
 // Manager implements the TransactionManager interface
@@ -90,6 +91,8 @@ func (m *Manager) BeginTransaction(readOnly bool) (Transaction, error) {
 
 	// Set transaction as active
 	tx.active.Store(true)
+
+	verifhook.Yield("tx.begin")
 
 	// Acquire appropriate lock
 	if mode == ReadOnly {
